@@ -313,15 +313,19 @@ pub fn move_row_descriptors(worksheet: &mut Worksheet, row: i32, delta: i32, tar
 // ---- sheet ids ----
 #[verifier::external_body] pub struct WorkbookRest { _o: u8 }
 #[verifier::external_body] pub struct ModelRest { _o: u8 }
-pub struct Workbook { pub worksheets: Vec<Worksheet>, pub rest: WorkbookRest }
+//@type base/src/types.rs DefinedName
+pub struct Workbook { pub worksheets: Vec<Worksheet>, pub defined_names: Vec<DefinedName>, pub rest: WorkbookRest }
 pub struct Model { pub workbook: Workbook, pub rest: ModelRest }
 impl Model {
 //@fn base/src/new_empty.rs Model::get_new_sheet_id
 //@attr
 #[verifier::loop_isolation(false)]
 //@spec
-    requires forall|i: int| 0 <= i < self.workbook.worksheets@.len() ==> (#[trigger] self.workbook.worksheets@[i]).sheet_id < 4294967295
-    ensures forall|i: int| 0 <= i < self.workbook.worksheets@.len() ==> (#[trigger] self.workbook.worksheets@[i]).sheet_id < r   // fresh: ids stay unique
+    requires forall|i: int| 0 <= i < self.workbook.worksheets@.len() ==> (#[trigger] self.workbook.worksheets@[i]).sheet_id < 4294967295,
+        forall|i: int| 0 <= i < self.workbook.defined_names@.len() ==> ((#[trigger] self.workbook.defined_names@[i]).sheet_id matches Some(id) ==> id < 4294967295),
+    ensures forall|i: int| 0 <= i < self.workbook.worksheets@.len() ==> (#[trigger] self.workbook.worksheets@[i]).sheet_id < r,   // fresh: ids stay unique
+        // and never the id a defined name is local to (C32 / C27: a new sheet does not adopt the names of a deleted sheet)
+        forall|i: int| 0 <= i < self.workbook.defined_names@.len() ==> ((#[trigger] self.workbook.defined_names@[i]).sheet_id matches Some(id) ==> id < r),
 //@rewrite `-> u32 {` => `-> (r: u32) {`
 //@loop 1 it
             invariant
@@ -329,6 +333,14 @@ impl Model {
                 forall|i: int| 0 <= i < it.index@ ==> (#[trigger] worksheets@[i]).sheet_id <= index,
 //@before `index = index.max(worksheet.sheet_id);`
             assert(*worksheet == worksheets@[it.index@] && worksheets@ == self.workbook.worksheets@);
+//@rewrite `for defined_name in &self.workbook.defined_names {` => `for defined_name in it2: self.workbook.defined_names.iter() {`
+//@loop 2
+            invariant
+                index < 4294967295,
+                forall|i: int| 0 <= i < self.workbook.worksheets@.len() ==> (#[trigger] self.workbook.worksheets@[i]).sheet_id <= index,
+                forall|i: int| 0 <= i < it2.index@ ==> ((#[trigger] self.workbook.defined_names@[i]).sheet_id matches Some(id) ==> id <= index),
+//@before `if let Some(sheet_id) = defined_name.sheet_id {`
+            assert(*defined_name == self.workbook.defined_names@[it2.index@]);
 //@end
 }
 
